@@ -50,7 +50,7 @@ def prog_lines(prog):
         elif oc[0] == 'waiton':
             s = f'waiton {oc[1]} {len(oc[2])} ' + ' '.join(f'{f}:{k}' for f, k in oc[2])
         elif oc[0] == 'stop':
-            s = f"stop {'-' if oc[1] is None else oc[1]} {1 if oc[2] else 0}"
+            s = f"stop {'-' if oc[1] is None else 99 if oc[1] == 'AW' else oc[1]} {1 if oc[2] else 0}"
         elif oc[0] == 'kill':
             s = 'kill'
         elif oc[0] == 'raise':
@@ -68,6 +68,8 @@ def _make_body(i, awaits, oc):
             return ps.Continue(getattr(self, f'f{oc[1]}'), *oc[2], **{f'k{a}': b for a, b in oc[3].items()})
         if k == 'wait':
             return ps.Wait(getattr(self, f'f{oc[1]}'))
+        if k == 'stop' and oc[1] == 'AW':
+            return self.loop.create_future()        # an awaitable object returned as the plain result value
         if k == 'stop':
             if oc[2]:
                 return oc[1] if i % 2 == 0 else ps.Stop(oc[1], True)
@@ -174,6 +176,7 @@ CORPUS = collections.OrderedDict([
     ('WaitWait', {'kind': 'proc', 'nfut': 0, 'fns': {0: (0, ('wait', 1)), 1: (1, ('wait', 2)), 2: (0, ('stop', None, True))}}),
     ('Chain2', chain_prog([[(0, 0), (1, 1)], [(2, 0)], []], 3)),
     ('ChainCall', dict(chain_prog([[(0, 0)], [(1, 0), (2, 1)], []], 3), via='call')),
+    ('RetAwaitable', {'kind': 'proc', 'nfut': 0, 'fns': {0: (0, ('cont', 1, [], {})), 1: (0, ('stop', 'AW', True))}}),
     ('FailSync', {'kind': 'proc', 'nfut': 0, 'fns': {0: (0, ('cont', 1, [], {})), 1: (0, ('raise', 1))}}),
 ])
 
@@ -310,6 +313,8 @@ class Run:
         st = p.state
         if st == S.FINISHED:
             r = p.result()
+            if asyncio.isfuture(r):
+                r = 99
             return f"finished:{'-' if r is None else r}:{1 if p.successful() else 0}"
         if st == S.EXCEPTED:
             return f'excepted:{excname(p.exception())}'
@@ -332,7 +337,7 @@ class Run:
         ts = 'pending' if not t.done() else 'crashed' if (t.cancelled() or t.exception() is not None) else 'done'
         acts = ''.join('P' if not a.done() else 'C' if a.cancelled() else 'E' if a.exception() is not None else 'D'
                        for a in self.handed)
-        tr = ' '.join(f"{x[0]}({','.join(str(v) for v in x[1])};{','.join(f'{k}={v}' for k, v in x[2])})@{1 if x[3] else 0}"
+        tr = ' '.join(f"{x[0]}({','.join(str(0 if v is None else v) for v in x[1])};{','.join(f'{k}={v}' for k, v in x[2])})@{1 if x[3] else 0}"
                       for x in p._trace)
         ctx = ''
         if isinstance(p, plumpy.WorkChain) and p.ctx is not None:
@@ -366,7 +371,7 @@ class Run:
             elif toks[0] == 'kill':
                 r = p.kill('km%d' % len(self.ops))
             elif toks[0] == 'resume':
-                r = p.resume() if toks[1] == '-' else p.resume(int(toks[1]))
+                r = p.resume() if toks[1] == '-' else p.resume(None) if toks[1] == 'N' else p.resume(int(toks[1]))
             elif toks[0] == 'fail':
                 r = p.fail(self.fail_exc, None)
             elif toks[0] == 'cancelfut':
@@ -415,8 +420,8 @@ class Run:
         if toks[0] == 'kill' and live:
             self.kill_results.append(('raised' if raised else r, 'km%d' % idx, idx))
         if toks[0] == 'resume' and not raised:
-            self.resumes.append((None if toks[1] == '-' else int(toks[1]), ph, idx))
-        self.ops.append(op)
+            self.resumes.append((None if toks[1] == '-' else 'N' if toks[1] == 'N' else int(toks[1]), ph, idx))
+        self.ops.append('resume 0' if op == 'resume N' else op)
         self.observe(ret)
 
     def tick(self):
@@ -539,6 +544,9 @@ def ops_for(prog, alphabet):
         elif o == 'resume-':
             if prog['kind'] == 'proc' and any(oc[0] == 'wait' for _, oc in prog['fns'].values()):
                 ops.append('resume -')
+        elif o == 'resumeN':
+            if prog['kind'] == 'proc' and any(oc[0] == 'wait' for _, oc in prog['fns'].values()):
+                ops.append('resume N')
         elif o == 'complete':
             for f in range(prog.get('nfut', 0)):
                 ops.append(f'complete {f} ok {10 + f}')
